@@ -5,8 +5,8 @@
     2. Instances: parallelogram, constrained multi-parallelogram (every crease assignment), tex coords portable
        (every orientation assignment), including the prediction-data bytes. *)
 From Coq Require Import ZArith List Bool Arith Lia ZifyBool.
-From Draco Require Import Base.Codec Model.Varint Model.Wrap Model.CornerTable Model.SeqAttr Model.BitCoders Model.Predict
-  Proofs.Varint_proofs Proofs.Wrap_proofs Proofs.SeqAttr_proofs Proofs.BitCoders_proofs.
+From Draco Require Import Base.Bits Base.Codec Model.Varint Model.Wrap Model.Octahedron Model.CornerTable Model.SeqAttr Model.BitCoders Model.Predict
+  Proofs.Varint_proofs Proofs.Wrap_proofs Proofs.Octahedron_proofs Proofs.SeqAttr_proofs Proofs.BitCoders_proofs.
 Import ListNotations.
 
 (** * 1. The generic theorem *)
@@ -752,3 +752,436 @@ Proof.
   split; [|split; vm_compute; reflexivity].
   repeat (constructor; [constructor; [lia|constructor]|]). constructor.
 Qed.
+
+(** * 7. The ascending encoder loop meets the decoder loop (same hypotheses as the descending one) *)
+Section CausalUpProofs.
+  Context {E Pr C A W St : Type}.
+  Variable tenc : E -> Pr -> C.
+  Variable tdec : Pr -> C -> E.
+  Variable Pe : list E -> nat -> A -> option (Pr * W).
+  Variable Pd : list E -> nat -> St -> option (Pr * St).
+  Variable D : E -> Prop.
+  Variable PD : Pr -> Prop.
+  Variable Rep : list W -> St -> Prop.
+  Hypothesis law : forall o p, D o -> PD p -> tdec p (tenc o p) = o.
+  Hypothesis Pe_dom : forall pre i a p w, length pre = i -> Forall D pre -> Pe pre i a = Some (p, w) -> PD p.
+  Hypothesis step : forall pre i a p w ws st, length pre = i -> Forall D pre ->
+    Pe pre i a = Some (p, w) -> Rep (w :: ws) st ->
+    exists st', Pd pre i st = Some (p, st') /\ Rep ws st'.
+
+  Lemma enc_up_dec data choice : Forall D data -> forall todo pre i out ws corr wsf,
+    data = pre ++ todo -> length pre = i ->
+    enc_up tenc Pe data choice i todo out ws = Some (corr, wsf) ->
+    exists cs wl, corr = out ++ cs /\ wsf = ws ++ wl /\ length cs = length todo /\ length wl = length todo /\
+      forall ws' st, Rep (wl ++ ws') st ->
+        exists st', dec_up tdec Pd cs i pre st = Some (data, st') /\ Rep ws' st'.
+  Proof.
+    intros HD. induction todo as [|o rest IH]; intros pre i out ws corr wsf Hdata Hlen Henc; cbn [enc_up] in Henc.
+    - injection Henc as <- <-. exists [], []. rewrite !app_nil_r. repeat (split; [reflexivity|]).
+      intros ws' st HR. exists st. cbn [dec_up app] in *. rewrite app_nil_r in Hdata. subst pre. split; [reflexivity|exact HR].
+    - assert (Hfn : firstn i data = pre).
+      { subst data. rewrite <- Hlen. rewrite firstn_app, Nat.sub_diag, firstn_all. cbn. apply app_nil_r. }
+      rewrite Hfn in Henc.
+      destruct (Pe pre i (choice i)) as [[p w]|] eqn:EP; [|discriminate].
+      assert (HDpre : Forall D pre) by (subst data; apply Forall_app in HD; tauto).
+      assert (HDo : D o) by (subst data; apply Forall_app in HD; destruct HD as [_ H]; inversion H; assumption).
+      destruct (IH (pre ++ [o]) (S i) _ _ _ _ ltac:(rewrite <- app_assoc; exact Hdata)
+                   ltac:(rewrite app_length; cbn; lia) Henc) as (cs & wl & -> & -> & Hlc & Hlw & Hdec).
+      exists (tenc o p :: cs), (w :: wl). rewrite <- !app_assoc. cbn [app length].
+      split; [reflexivity|]. split; [reflexivity|]. split; [lia|]. split; [lia|].
+      intros ws' st HR.
+      destruct (step _ _ _ _ _ _ _ Hlen HDpre EP HR) as (st1 & Hd1 & HR1).
+      cbn [dec_up]. rewrite Hd1, law; [|exact HDo|eapply Pe_dom; eassumption].
+      apply Hdec. exact HR1.
+  Qed.
+
+  Theorem causal_prediction_roundtrip_up data choice corr ws st0 :
+    Forall D data -> causal_enc_up tenc Pe data choice = Some (corr, ws) -> Rep ws st0 ->
+    length corr = length data /\ length ws = length data /\
+    exists st', causal_dec tdec Pd corr st0 = Some (data, st') /\ Rep [] st'.
+  Proof.
+    intros HD Henc HR. unfold causal_enc_up in Henc.
+    destruct (enc_up_dec data choice HD data [] 0%nat [] [] corr ws eq_refl eq_refl Henc)
+      as (cs & wl & -> & -> & Hlc & Hlw & Hdec).
+    cbn [app] in *. split; [exact Hlc|]. split; [exact Hlw|].
+    destruct (Hdec [] st0 ltac:(rewrite app_nil_r; exact HR)) as (st' & Hd & HR').
+    exists st'. split; [exact Hd|exact HR'].
+  Qed.
+End CausalUpProofs.
+
+(** * 8. Geometric normal *)
+Lemma quot_share a b A c : 0 <= a -> 0 <= b -> 0 <= c -> 0 < A -> a + b <= A -> (a * c) / A + (b * c) / A <= c.
+Proof.
+  intros Ha Hb Hc HA Hab.
+  pose proof (Z.mul_div_le (a * c) A HA). pose proof (Z.mul_div_le (b * c) A HA).
+  pose proof (Z.div_pos (a * c) A ltac:(nia) HA). pose proof (Z.div_pos (b * c) A ltac:(nia) HA).
+  nia.
+Qed.
+Lemma abs_quot x c A : 0 <= c -> 0 < A -> Z.abs (Z.quot (x * c) A) = (Z.abs x * c) / A.
+Proof.
+  intros Hc HA. rewrite <- (Z.quot_abs (x * c) A) by lia. rewrite Z.abs_mul, (Z.abs_eq c), (Z.abs_eq A) by lia.
+  apply Z.quot_div_nonneg; [|lia]. pose proof (Z.abs_nonneg x). nia.
+Qed.
+
+(** CanonicalizeIntegerVector returns a vector of L1 norm center (so every int32 store is exact) *)
+Lemma canonicalize_int_vec_bounds b v : 0 <= ob_center b ->
+  let '(x, y, z) := canonicalize_int_vec b v in Z.abs x + Z.abs y + Z.abs z = ob_center b.
+Proof.
+  intros Hc. destruct v as [[x y] z]. unfold canonicalize_int_vec.
+  destruct (Z.abs x + Z.abs y + Z.abs z =? 0) eqn:E0.
+  - apply Z.eqb_eq in E0. lia.
+  - apply Z.eqb_neq in E0. set (A := Z.abs x + Z.abs y + Z.abs z) in *.
+    assert (HA : 0 < A) by (unfold A; lia).
+    pose proof (quot_share (Z.abs x) (Z.abs y) A (ob_center b) ltac:(lia) ltac:(lia) Hc HA ltac:(unfold A; lia)) as Hs.
+    rewrite <- !abs_quot in Hs by assumption.
+    destruct (z >=? 0); lia.
+Qed.
+
+Lemma int_vec_to_oct_square c v : 1 <= c ->
+  (let '(x, y, z) := v in Z.abs x + Z.abs y + Z.abs z = c) ->
+  in_square c (int_vec_to_oct (obox_of_center c) v).
+Proof.
+  intros Hc. destruct v as [[x y] z]. intros Hn. unfold int_vec_to_oct. cbn [ob_center ob_maxv obox_of_center].
+  apply canonicalize_canonical; [exact Hc|].
+  unfold in_square. destruct (x >=? 0); [cbn [fst snd]; lia|].
+  destruct (y <? 0); destruct (z <? 0); cbn [fst snd]; lia.
+Qed.
+
+Lemma gn_predict_square c md pos i flip p : 1 <= c ->
+  gn_predict (obox_of_center c) md pos i flip = Some p -> in_square c p.
+Proof.
+  intros Hc. unfold gn_predict. destruct (nth_error (md_d2c md) i); [|discriminate].
+  destruct (gn_normal md pos n) as [n3|]; [|discriminate]. intros H; injection H as <-.
+  pose proof (canonicalize_int_vec_bounds (obox_of_center c) n3 ltac:(cbn; lia)) as Hb.
+  destruct (canonicalize_int_vec (obox_of_center c) n3) as [[x y] z]. cbn [ob_center obox_of_center] in Hb.
+  apply int_vec_to_oct_square; [exact Hc|]. destruct flip; cbn [v3_neg]; lia.
+Qed.
+
+(** ModMax then MakePositive is the identity on what ComputeCorrection returns *)
+Lemma gn_corr_is_enc c orig pred : 1 <= c <= cmax -> canonical c orig -> in_square c pred ->
+  gn_corr (obox_of_center c) orig pred = oct_canon_enc (obox_of_center c) orig pred.
+Proof.
+  intros Hc Ho Hp. destruct (oct_canon_roundtrip_machine c orig pred Hc Ho Hp) as [_ [H1 H2]].
+  unfold gn_corr. destruct (oct_canon_enc (obox_of_center c) orig pred) as [s t]. cbn [fst snd] in *.
+  unfold make_positive, mod_max. cbn [ob_center ob_mqv obox_of_center].
+  f_equal.
+  - destruct (s >? c) eqn:E1; [destruct (s - (2 * c + 1) <? 0) eqn:E2; lia|].
+    destruct (s <? - c) eqn:E3; [lia|]. destruct (s <? 0) eqn:E4; lia.
+  - destruct (t >? c) eqn:E1; [destruct (t - (2 * c + 1) <? 0) eqn:E2; lia|].
+    destruct (t <? - c) eqn:E3; [lia|]. destruct (t <? 0) eqn:E4; lia.
+Qed.
+
+(** DecodeTransformData accepts what EncodeTransformData wrote, q = 2..30 (finite domain, by computation) *)
+Definition obox_eqb (a b : obox) : bool :=
+  (ob_q a =? ob_q b) && (ob_mqv a =? ob_mqv b) && (ob_maxv a =? ob_maxv b) && (ob_center a =? ob_center b).
+Lemma oct_transform_data_accepts q b : set_quantization_bits q = Some b -> oct_canon_dec_init (ob_mqv b) = Some b.
+Proof.
+  intros Hb.
+  assert (Hq : 2 <= q <= 30).
+  { unfold set_quantization_bits in Hb. destruct ((q <? 2) || (q >? 30)) eqn:E; [discriminate|lia]. }
+  pose (f := fun q => match set_quantization_bits (q + 2) with
+                      | Some b => match oct_canon_dec_init (ob_mqv b) with Some b' => obox_eqb b' b | None => false end
+                      | None => false end).
+  assert (H : f (q - 2) = true) by (apply (range_forallb f 29); [vm_compute; reflexivity|lia]).
+  unfold f in H. replace (q - 2 + 2) with q in H by lia. rewrite Hb in H.
+  destruct (oct_canon_dec_init (ob_mqv b)) as [b'|]; [|discriminate].
+  unfold obox_eqb in H. destruct b, b'. simpl in H. f_equal. f_equal; lia.
+Qed.
+
+Theorem gn_roundtrip ver q md pos (data : list pt) flip corr bs rest :
+  514 <= ver -> Z.of_nat (length data) + 3 < 2 ^ 32 ->
+  (forall b, set_quantization_bits q = Some b -> Forall (canonical (ob_center b)) data) ->
+  gn_encode q md pos data flip = Some (corr, bs) ->
+  gn_decode ver md pos corr (bs ++ rest) = Some (data, rest) /\ length corr = length data.
+Proof.
+  intros Hver Hn Hcan. unfold gn_encode.
+  destruct (length (md_d2c md) =? length data)%nat eqn:Es; cbn [negb]; [|discriminate].
+  destruct (set_quantization_bits q) as [b|] eqn:Eb; [|discriminate].
+  assert (Hq : 2 <= q <= 30).
+  { unfold set_quantization_bits in Eb. destruct ((q <? 2) || (q >? 30)) eqn:E; [discriminate|lia]. }
+  pose proof (Hcan b eq_refl) as HD. pose proof (oct_transform_data_accepts q b Eb) as Hacc.
+  rewrite (set_quantization_bits_center q Hq) in Eb. injection Eb as <-.
+  set (c := 2 ^ (q - 1) - 1) in *. pose proof (center_bounds q Hq) as Hc. fold c in Hc.
+  cbn [ob_center obox_of_center] in HD.
+  destruct (causal_enc_up _ _ data flip) as [[corr' ws]|] eqn:Ee; [|discriminate].
+  destruct (ransbit_encode ws) as [fb|] eqn:Ef; [|discriminate].
+  remember (enc_le 4 (ob_mqv (obox_of_center c) mod 2 ^ 32)) as h1 eqn:Eh1.
+  remember (enc_le 4 (ob_center (obox_of_center c) mod 2 ^ 32)) as h2 eqn:Eh2.
+  intros H; injection H as <- <-. subst h1 h2.
+  pose proof (causal_prediction_roundtrip_up (gn_corr (obox_of_center c)) (oct_canon_dec (obox_of_center c))
+    (gn_predict_enc (obox_of_center c) md pos) (gn_predict_dec (obox_of_center c) md pos)
+    (canonical c) (in_square c) (fun ws st => st = ws)) as G.
+  destruct G with (data := data) (choice := flip) (corr := corr') (ws := ws) (st0 := ws)
+    as (Hlen & Hlw & st' & Hdec & _); try assumption; try reflexivity.
+  - intros o p Ho Hp. rewrite gn_corr_is_enc by assumption. apply (oct_canon_roundtrip_machine c o p Hc Ho Hp).
+  - intros pre i a p w _ _. unfold gn_predict_enc.
+    destruct (gn_predict (obox_of_center c) md pos i a) as [p'|] eqn:E; [|discriminate].
+    intros H; injection H as <- _. eapply gn_predict_square; [lia|exact E].
+  - intros pre i a p w ws0 st _ _. unfold gn_predict_enc, gn_predict_dec.
+    destruct (gn_predict (obox_of_center c) md pos i a) as [p'|] eqn:E; [|discriminate].
+    intros H; injection H as <- <-. intros ->. rewrite E. eexists; split; reflexivity.
+  - split; [|exact Hlen]. unfold gn_decode. rewrite Hlen, Es. cbn [negb]. rewrite <- !app_assoc.
+    rewrite (le_roundtrips 4 (ob_mqv (obox_of_center c) mod 2 ^ 32) _ _ (u32_range _) eq_refl).
+    rewrite (le_roundtrips 4 (ob_center (obox_of_center c) mod 2 ^ 32) _ _ (u32_range _) eq_refl).
+    rewrite i32_of_u32_mod by (cbn [ob_mqv obox_of_center]; unfold cmax in Hc; unfold i32; lia).
+    rewrite Hacc.
+    destruct (ransbit_roundtrip ver ws fb rest Hver ltac:(lia) Ef) as (st & Hst & Hrd).
+    rewrite Hst. rewrite <- Hlw at 1. rewrite Hrd, Hdec. reflexivity.
+Qed.
+
+(** * 9. IntSqrt stays below 2^32 *)
+Lemma div_lt2 n b : 0 <= n -> 0 < b -> n / b < 2 -> n < 2 * b.
+Proof. intros Hn Hb H. pose proof (Z.div_mod n b ltac:(lia)). pose proof (Z.mod_pos_bound n b Hb). nia. Qed.
+
+Lemma isqrt_estimate_spec n : 0 <= n -> forall fuel sr (k : nat) r,
+  1 <= sr -> n / (sr * sr) < 2 * 4 ^ Z.of_nat k -> sr * 2 ^ Z.of_nat k = 2 ^ 32 ->
+  isqrt_estimate fuel (n / (sr * sr)) sr = Some r ->
+  1 <= r /\ n / (r * r) < 2 /\ (r <= 2 ^ 31 \/ r = 2 ^ 32).
+Proof.
+  intros Hn. induction fuel as [|f IH]; intros sr k r Hsr Hact Hpow; cbn [isqrt_estimate]; [discriminate|].
+  destruct (n / (sr * sr) >=? 2) eqn:E.
+  - destruct k as [|k]; [cbn in Hact; lia|].
+    assert (Hu : to_u64 (sr * 2) = sr * 2).
+    { unfold to_u64. apply Z.mod_small. rewrite Nat2Z.inj_succ, Z.pow_succ_r in Hpow by lia.
+      assert (0 < 2 ^ Z.of_nat k) by (apply Z.pow_pos_nonneg; lia). nia. }
+    rewrite Hu. replace (n / (sr * sr) / 4) with (n / (sr * 2 * (sr * 2))).
+    2:{ rewrite Z.div_div by nia. f_equal. ring. }
+    apply (IH (sr * 2) k r); [lia| |].
+    + replace (n / (sr * 2 * (sr * 2))) with (n / (sr * sr) / 4) by (rewrite Z.div_div by nia; f_equal; ring).
+      rewrite Nat2Z.inj_succ, Z.pow_succ_r in Hact by lia. apply Z.div_lt_upper_bound; lia.
+    + rewrite Nat2Z.inj_succ, Z.pow_succ_r in Hpow by lia. lia.
+  - intros H; injection H as <-. split; [lia|]. split; [lia|].
+    destruct k as [|k]; [right; cbn in Hpow; lia|left].
+    rewrite Nat2Z.inj_succ, Z.pow_succ_r in Hpow by lia.
+    assert (1 <= 2 ^ Z.of_nat k) by (assert (0 < 2 ^ Z.of_nat k) by (apply Z.pow_pos_nonneg; lia); lia).
+    change (2 ^ 32) with (2 * 2 ^ 31) in Hpow. nia.
+Qed.
+
+Lemma isqrt_newton_bound n : 1 <= n < 2 ^ 64 -> forall fuel sr r,
+  1 <= sr -> sr + n / sr < 2 ^ 33 -> isqrt_newton fuel n sr = Some r -> 1 <= r < 2 ^ 32.
+Proof.
+  intros Hn. induction fuel as [|f IH]; intros sr r Hsr Hsum; cbn [isqrt_newton]; [discriminate|].
+  assert (Hq : 0 <= n / sr) by (apply Z.div_pos; lia).
+  assert (Hu : to_u64 (sr + n / sr) = sr + n / sr).
+  { unfold to_u64. apply Z.mod_small. change (2 ^ 33) with 8589934592 in Hsum. lia. }
+  rewrite Hu. set (s := (sr + n / sr) / 2).
+  assert (Hs2 : 2 <= sr + n / sr).
+  { destruct (Z.le_gt_cases sr n); [|lia]. assert (1 <= n / sr) by (apply Z.div_le_lower_bound; lia). lia. }
+  assert (Hs : 1 <= s < 2 ^ 32).
+  { unfold s. split; [apply Z.div_le_lower_bound; lia|apply Z.div_lt_upper_bound; [lia|]]. change (2 ^ 33) with (2 * 2 ^ 32) in Hsum. lia. }
+  assert (Hss : to_u64 (s * s) = s * s).
+  { unfold to_u64. apply Z.mod_small. change (2 ^ 32) with 4294967296 in Hs. nia. }
+  rewrite Hss. destruct (s * s >? n) eqn:E.
+  - apply IH; [lia|]. assert (n / s < s) by (apply Z.div_lt_upper_bound; lia).
+    change (2 ^ 33) with (2 * 2 ^ 32). lia.
+  - intros H; injection H as <-. exact Hs.
+Qed.
+
+Lemma int_sqrt_bound n r : 0 <= n < 2 ^ 64 -> int_sqrt n = Some r -> 0 <= r < 2 ^ 32.
+Proof.
+  intros Hn. unfold int_sqrt. destruct (n =? 0) eqn:E0; [intros H; injection H as <-; lia|].
+  destruct (isqrt_estimate 66 n 1) as [sr|] eqn:Ee; [|discriminate].
+  replace n with (n / (1 * 1)) in Ee at 1 by (rewrite Z.mul_1_l, Z.div_1_r; reflexivity).
+  destruct (isqrt_estimate_spec n ltac:(lia) 66 1 32%nat sr ltac:(lia)
+              ltac:(rewrite Z.mul_1_l, Z.div_1_r; change (2 * 4 ^ Z.of_nat 32) with (2 ^ 65); change (2 ^ 64) with 18446744073709551616 in Hn; change (2 ^ 65) with 36893488147419103232; lia)
+              ltac:(reflexivity) Ee) as (H1 & H2 & H3).
+  intros Hnw. assert (Hb : 1 <= r < 2 ^ 32); [|lia].
+  apply (isqrt_newton_bound n ltac:(lia) 200 sr r H1); [|exact Hnw].
+  destruct H3 as [H3 | ->].
+  - pose proof (div_lt2 n (sr * sr) ltac:(lia) ltac:(nia) H2).
+    assert (n / sr < 2 * sr) by (apply Z.div_lt_upper_bound; nia).
+    change (2 ^ 31) with 2147483648 in H3. change (2 ^ 33) with 8589934592. lia.
+  - assert (n / 2 ^ 32 < 2 ^ 32) by (apply Z.div_lt_upper_bound; [lia|]; change (2 ^ 32 * 2 ^ 32) with (2 ^ 64); lia).
+    change (2 ^ 33) with (2 ^ 32 + 2 ^ 32). lia.
+Qed.
+
+(** * 10. No signed overflow in the tex-coords predictor on bounded operands *)
+Definition i64b (x : Z) : Prop := - i64_max <= x <= i64_max.
+Lemma in_i64_of x : i64b x -> in_i64 x = true.
+Proof. unfold i64b, in_i64, i64_max. lia. Qed.
+Lemma mul_bound x y P Q : - P <= x <= P -> - Q <= y <= Q -> - (P * Q) <= x * y <= P * Q.
+Proof. intros. nia. Qed.
+Lemma abs_quot_le x N M : 0 < N -> Z.abs x <= M * N -> Z.abs (Z.quot x N) <= M.
+Proof.
+  intros HN H. rewrite <- Z.quot_abs by lia. rewrite (Z.abs_eq N) by lia.
+  pose proof (Z.abs_nonneg x). rewrite Z.quot_div_nonneg by lia.
+  apply Z.div_le_upper_bound; [lia|]. lia.
+Qed.
+Lemma quot_small x N M : 0 < N -> - M <= x <= M -> - M <= Z.quot x N <= M.
+Proof.
+  intros HN H. assert (Z.abs (Z.quot x N) <= M); [|lia].
+  apply abs_quot_le; [exact HN|]. assert (Z.abs x <= M) by lia. nia.
+Qed.
+Lemma forallb_app' {X} (f : X -> bool) a b : forallb f a = true -> forallb f b = true -> forallb f (a ++ b) = true.
+Proof. intros. rewrite forallb_app. rewrite H, H0. reflexivity. Qed.
+
+Lemma dot_trace_ok P a0 a1 a2 b0 b1 b2 : 0 <= P -> 3 * (P * P) <= i64_max ->
+  - P <= a0 <= P -> - P <= a1 <= P -> - P <= a2 <= P -> - P <= b0 <= P -> - P <= b1 <= P -> - P <= b2 <= P ->
+  forallb in_i64 (dot_trace (a0, a1, a2) (b0, b1, b2)) = true.
+Proof.
+  intros HP H3 A0 A1 A2 B0 B1 B2.
+  pose proof (mul_bound a0 b0 P P A0 B0). pose proof (mul_bound a1 b1 P P A1 B1). pose proof (mul_bound a2 b2 P P A2 B2).
+  unfold dot_trace. cbn [forallb]. rewrite !andb_true_iff. repeat split; apply in_i64_of; unfold i64b; lia.
+Qed.
+
+(** what a guard that did not fire gives *)
+Lemma guard_div n N : 0 < N -> (Z.abs n >? i64_max / N) = false -> i64b (n * N).
+Proof.
+  intros HN G. pose proof (Z.mul_div_le i64_max N HN). assert (Z.abs n <= i64_max / N) by lia.
+  assert (Z.abs (n * N) <= i64_max); [|unfold i64b; lia]. rewrite Z.abs_mul, (Z.abs_eq N) by lia. pose proof (Z.abs_nonneg n). nia.
+Qed.
+Lemma guard_quot d m x : 0 <= m -> (Z.abs d >? Z.quot i64_max m) = false -> Z.abs x <= m -> i64b (d * x).
+Proof.
+  intros Hm G Hx. assert (Z.abs (d * x) <= i64_max); [|unfold i64b; lia].
+  rewrite Z.abs_mul. pose proof (Z.abs_nonneg x). pose proof (Z.abs_nonneg d).
+  destruct (Z.eq_dec m 0) as [E|E]; [assert (Z.abs x = 0) by lia; unfold i64_max; nia|].
+  rewrite Z.quot_div_nonneg in G by (unfold i64_max; lia).
+  pose proof (Z.mul_div_le i64_max m ltac:(lia)). assert (Z.abs d <= i64_max / m) by lia. nia.
+Qed.
+
+(** the projection quotients are at most 3P in magnitude *)
+Lemma proj_quot_bound P a0 a1 a2 c0 c1 c2 x : 0 <= P ->
+  - P <= c0 <= P -> - P <= c1 <= P -> - P <= c2 <= P -> (x = a0 \/ x = a1 \/ x = a2) ->
+  0 < a0 * a0 + a1 * a1 + a2 * a2 ->
+  - (3 * P) <= Z.quot ((a0 * c0 + a1 * c1 + a2 * c2) * x) (a0 * a0 + a1 * a1 + a2 * a2) <= 3 * P.
+Proof.
+  intros HP C0 C1 C2 Hx HN. set (N := a0 * a0 + a1 * a1 + a2 * a2) in *. set (d := a0 * c0 + a1 * c1 + a2 * c2).
+  assert (Z.abs (Z.quot (d * x) N) <= 3 * P); [|lia]. apply abs_quot_le; [exact HN|].
+  rewrite Z.abs_mul.
+  set (A0 := Z.abs a0). set (A1 := Z.abs a1). set (A2 := Z.abs a2).
+  assert (HNA : N = A0 * A0 + A1 * A1 + A2 * A2) by (unfold N, A0, A1, A2; rewrite (Z.abs_square a0), (Z.abs_square a1), (Z.abs_square a2); reflexivity).
+  assert (H0 : 0 <= A0) by apply Z.abs_nonneg. assert (H1 : 0 <= A1) by apply Z.abs_nonneg. assert (H2 : 0 <= A2) by apply Z.abs_nonneg.
+  assert (Hdd : Z.abs d <= P * (A0 + A1 + A2)).
+  { unfold d. pose proof (Z.abs_triangle (a0 * c0 + a1 * c1) (a2 * c2)) as T1. pose proof (Z.abs_triangle (a0 * c0) (a1 * c1)) as T2.
+    rewrite !Z.abs_mul in T1, T2. fold A0 A1 A2 in T1, T2.
+    assert (Z.abs c0 <= P) by lia. assert (Z.abs c1 <= P) by lia. assert (Z.abs c2 <= P) by lia.
+    pose proof (Z.abs_nonneg c0). pose proof (Z.abs_nonneg c1). pose proof (Z.abs_nonneg c2).
+    assert (A0 * Z.abs c0 <= A0 * P) by (apply Z.mul_le_mono_nonneg_l; lia).
+    assert (A1 * Z.abs c1 <= A1 * P) by (apply Z.mul_le_mono_nonneg_l; lia).
+    assert (A2 * Z.abs c2 <= A2 * P) by (apply Z.mul_le_mono_nonneg_l; lia).
+    lia. }
+  assert (HX : (A0 + A1 + A2) * Z.abs x <= 3 * N).
+  { pose proof (Z.square_nonneg (A0 - A1)). pose proof (Z.square_nonneg (A0 - A2)). pose proof (Z.square_nonneg (A1 - A2)).
+    destruct Hx as [-> | [-> | ->]]; fold A0 A1 A2; rewrite HNA; clearbody A0 A1 A2; timeout 20 nia. }
+  pose proof (Z.abs_nonneg x). pose proof (Z.abs_nonneg d).
+  generalize dependent (Z.abs x). generalize dependent (Z.abs d). clearbody A0 A1 A2 N. intros. timeout 20 nia.
+Qed.
+
+Ltac i64s := cbn [forallb]; rewrite ?andb_true_iff; repeat split; apply in_i64_of; unfold i64b; timeout 30 lia.
+
+Section NoUB.
+  Variables P U : Z.
+  Hypothesis HP : 0 < P.
+  Hypothesis HU : 0 < U.
+  Hypothesis Hdec1 : 48 * (P * P) <= i64_max.
+  Hypothesis Hdec2 : U * 2 ^ 32 <= i64_max.
+  Definition pos_ok (v : v3) : Prop := let '(x, y, z) := v in 0 <= x < P /\ 0 <= y < P /\ 0 <= z < P.
+  Definition uv_ok (u : Z * Z) : Prop := 0 <= fst u < U /\ 0 <= snd u < U.
+
+  Lemma tc_no_ub_bounded enc n_uv p_uv tip nxt prv :
+    (enc = true -> 6 * (U * (P * P)) + U * 2 ^ 32 <= i64_max) ->
+    pos_ok tip -> pos_ok nxt -> pos_ok prv -> uv_ok n_uv -> uv_ok p_uv ->
+    tc_no_ub enc n_uv p_uv tip nxt prv = true.
+  Proof.
+    intros Henc. destruct tip as [[t0 t1] t2], nxt as [[n0 n1] n2], prv as [[p0 p1] p2], n_uv as [nu nv], p_uv as [pu pv].
+    intros (T0 & T1 & T2) (N0 & N1 & N2) (P0 & P1 & P2) [Hnu Hnv] [Hpu Hpv]. cbn [fst snd] in *.
+    unfold tc_no_ub, tc_signed_trace. cbn [fst snd].
+    assert (HPP : 0 <= P * P) by nia.
+    assert (H3P : 3 * (P * P) <= i64_max) by lia.
+    assert (HPm : 4 * P <= i64_max) by (unfold i64_max in *; nia).
+    assert (HUm : U <= i64_max) by (change (2 ^ 32) with 4294967296 in Hdec2; lia).
+    remember (p0 - n0) as a0 eqn:Ea0. remember (p1 - n1) as a1 eqn:Ea1. remember (p2 - n2) as a2 eqn:Ea2.
+    remember (t0 - n0) as c0 eqn:Ec0. remember (t1 - n1) as c1 eqn:Ec1. remember (t2 - n2) as c2 eqn:Ec2.
+    remember (pu - nu) as u0 eqn:Eu0. remember (pv - nv) as u1 eqn:Eu1.
+    assert (Aa0 : - P <= a0 <= P) by lia. assert (Aa1 : - P <= a1 <= P) by lia. assert (Aa2 : - P <= a2 <= P) by lia.
+    assert (Ac0 : - P <= c0 <= P) by lia. assert (Ac1 : - P <= c1 <= P) by lia. assert (Ac2 : - P <= c2 <= P) by lia.
+    assert (Au0 : - U <= u0 <= U) by lia. assert (Au1 : - U <= u1 <= U) by lia.
+    apply forallb_app'; [i64s|].
+    apply forallb_app'; [apply (dot_trace_ok P); assumption || lia|].
+    pose proof (mul_bound a0 a0 P P Aa0 Aa0) as M00. pose proof (mul_bound a1 a1 P P Aa1 Aa1) as M11.
+    pose proof (mul_bound a2 a2 P P Aa2 Aa2) as M22.
+    pose proof (mul_bound a0 c0 P P Aa0 Ac0) as D0. pose proof (mul_bound a1 c1 P P Aa1 Ac1) as D1.
+    pose proof (mul_bound a2 c2 P P Aa2 Ac2) as D2.
+    pose proof (Z.square_nonneg a0) as S0. pose proof (Z.square_nonneg a1) as S1. pose proof (Z.square_nonneg a2) as S2.
+    remember (a0 * a0 + a1 * a1 + a2 * a2) as N eqn:EN'.
+    remember (a0 * c0 + a1 * c1 + a2 * c2) as d eqn:Ed.
+    destruct (N =? 0) eqn:EN; [reflexivity|]. apply Z.eqb_neq in EN.
+    assert (HN : 0 < N <= 3 * (P * P)) by lia.
+    assert (Hd : - (3 * (P * P)) <= d <= 3 * (P * P)) by lia.
+    apply forallb_app'; [i64s|].
+    apply forallb_app'; [apply (dot_trace_ok P); assumption || lia|].
+    apply forallb_app'; [i64s|].
+    destruct (Z.max (Z.abs nu) (Z.abs nv) >? i64_max / N) eqn:G1; [reflexivity|].
+    assert (Gnu : i64b (nu * N)) by (apply guard_div; lia).
+    assert (Gnv : i64b (nv * N)) by (apply guard_div; lia).
+    clear G1.
+    apply forallb_app'; [i64s|].
+    destruct (Z.abs d >? Z.quot i64_max (Z.max (Z.abs u0) (Z.abs u1))) eqn:G2; [reflexivity|].
+    assert (Gu0 : i64b (d * u0)) by (eapply guard_quot; [|exact G2|]; lia).
+    assert (Gu1 : i64b (d * u1)) by (eapply guard_quot; [|exact G2|]; lia).
+    clear G2.
+    apply forallb_app'; [unfold i64b in *; i64s|].
+    destruct (Z.abs d >? Z.quot i64_max (Z.max (Z.max (Z.abs a0) (Z.abs a1)) (Z.abs a2))) eqn:G3; [reflexivity|].
+    assert (Ga0 : i64b (d * a0)) by (eapply guard_quot; [|exact G3|]; lia).
+    assert (Ga1 : i64b (d * a1)) by (eapply guard_quot; [|exact G3|]; lia).
+    assert (Ga2 : i64b (d * a2)) by (eapply guard_quot; [|exact G3|]; lia).
+    clear G3.
+    assert (Q0 : - (3 * P) <= Z.quot (d * a0) N <= 3 * P)
+      by (subst d N; apply proj_quot_bound; try assumption; try lia; tauto).
+    assert (Q1 : - (3 * P) <= Z.quot (d * a1) N <= 3 * P)
+      by (subst d N; apply proj_quot_bound; try assumption; try lia; tauto).
+    assert (Q2 : - (3 * P) <= Z.quot (d * a2) N <= 3 * P)
+      by (subst d N; apply proj_quot_bound; try assumption; try lia; tauto).
+    remember (Z.quot (d * a0) N) as q0 eqn:Eq0. remember (Z.quot (d * a1) N) as q1 eqn:Eq1. remember (Z.quot (d * a2) N) as q2 eqn:Eq2.
+    apply forallb_app'; [unfold i64b in *; i64s|].
+    apply forallb_app'; [apply (dot_trace_ok (4 * P)); try lia; nia|].
+    destruct (int_sqrt _) as [norm|] eqn:Esq; [|reflexivity].
+    assert (Hnorm : 0 <= norm < 2 ^ 32).
+    { eapply int_sqrt_bound; [|exact Esq]. unfold to_u64. apply Z.mod_pos_bound. reflexivity. }
+    clear Esq.
+    pose proof (mul_bound u1 norm U (2 ^ 32) Au1 ltac:(lia)) as C0.
+    pose proof (mul_bound (- u0) norm U (2 ^ 32) ltac:(lia) ltac:(lia)) as C1.
+    remember (u1 * norm) as cx0 eqn:Ecx0. remember (- u0 * norm) as cx1 eqn:Ecx1.
+    apply forallb_app'; [i64s|].
+    destruct enc; [|reflexivity]. specialize (Henc eq_refl).
+    pose proof (mul_bound nu N U (3 * (P * P)) ltac:(lia) ltac:(lia)) as X0a.
+    pose proof (mul_bound nv N U (3 * (P * P)) ltac:(lia) ltac:(lia)) as X1a.
+    pose proof (mul_bound d u0 (3 * (P * P)) U Hd Au0) as X0b.
+    pose proof (mul_bound d u1 (3 * (P * P)) U Hd Au1) as X1b.
+    remember (nu * N + d * u0) as xu0 eqn:Exu0. remember (nv * N + d * u1) as xu1 eqn:Exu1.
+    assert (B0 : - (6 * (U * (P * P))) <= xu0 <= 6 * (U * (P * P))) by lia.
+    assert (B1 : - (6 * (U * (P * P))) <= xu1 <= 6 * (U * (P * P))) by lia.
+    clear X0a X1a X0b X1b Exu0 Exu1.
+    pose proof (quot_small (xu0 + cx0) N i64_max ltac:(lia) ltac:(lia)).
+    pose proof (quot_small (xu1 + cx1) N i64_max ltac:(lia) ltac:(lia)).
+    pose proof (quot_small (xu0 - cx0) N i64_max ltac:(lia) ltac:(lia)).
+    pose proof (quot_small (xu1 - cx1) N i64_max ltac:(lia) ltac:(lia)).
+    i64s.
+  Qed.
+End NoUB.
+
+(** instances and witnesses *)
+Lemma tc_no_ub_decoder_21 n_uv p_uv tip nxt prv :
+  pos_ok (2 ^ 21) tip -> pos_ok (2 ^ 21) nxt -> pos_ok (2 ^ 21) prv -> uv_ok (2 ^ 21) n_uv -> uv_ok (2 ^ 21) p_uv ->
+  tc_no_ub false n_uv p_uv tip nxt prv = true.
+Proof.
+  apply (tc_no_ub_bounded (2 ^ 21) (2 ^ 21)); try (unfold i64_max; cbv; congruence); try reflexivity.
+Qed.
+Lemma tc_no_ub_encoder_20 n_uv p_uv tip nxt prv :
+  pos_ok (2 ^ 20) tip -> pos_ok (2 ^ 20) nxt -> pos_ok (2 ^ 20) prv -> uv_ok (2 ^ 20) n_uv -> uv_ok (2 ^ 20) p_uv ->
+  tc_no_ub true n_uv p_uv tip nxt prv = true.
+Proof.
+  apply (tc_no_ub_bounded (2 ^ 20) (2 ^ 20)); try (unfold i64_max; cbv; congruence); try reflexivity.
+Qed.
+Lemma tc_no_ub_encoder_21_witness :
+  exists n_uv p_uv tip nxt prv,
+    pos_ok (2 ^ 21) tip /\ pos_ok (2 ^ 21) nxt /\ pos_ok (2 ^ 21) prv /\ uv_ok (2 ^ 21) n_uv /\ uv_ok (2 ^ 21) p_uv /\
+    tc_no_ub true n_uv p_uv tip nxt prv = false /\ tc_no_ub false n_uv p_uv tip nxt prv = true.
+Proof.
+  exists (1048576, 0), (2097151, 2097151), (2097151, 4, 0), (0, 0, 0), (2097151, 0, 0).
+  unfold pos_ok, uv_ok. cbn [fst snd]. change (2 ^ 21) with 2097152.
+  repeat (split; [lia|]). split; vm_compute; reflexivity.
+Qed.
+Lemma tc_no_ub_int32_witness :
+  tc_no_ub false (0, 0) (1, 0) (5, 4, 0) (-2147483648, 0, 0) (2147483647, 0, 0) = false.
+Proof. vm_compute. reflexivity. Qed.
